@@ -865,6 +865,36 @@ theorem seq_mul_spec [Div R] (hwf : st.wf) (t s : Nat) (r c : Nat)
         simp only [Bool.false_eq_true, if_false] at f3
         rw [f3 r c (by rw [sp.2.1]; exact hr) (by rw [sp.2.2.1]; exact hc), sp.1, if_pos ⟨hr, hc⟩]
 
+/-- rows as vectors: `T[i] = S[j]` and `T[i].axpy(k, S[j])` on matrix objects of a history (the row of a scalar matrix view is
+the scalar vector view it holds): row `i` of the storage of `t` gets the result, its other rows stay -/
+theorem seq_row_ops_spec [Div R] (hwf : st.wf) (t i s j : Nat) (k : R) (r c : Nat)
+    (hr : r < (st.buf t).rows) (hc : c < (st.buf t).cols) :
+    (seqStep conj st (.rasg t i s j) = some st' →
+      (st'.buf t).e r c = if r = i then (st.buf s).e j c else (st.buf t).e r c)
+    ∧ (seqStep conj st (.raxpy t i k s j) = some st' →
+      (st'.buf t).e r c = if r = i then (st.buf t).e i c + k * (st.buf s).e j c else (st.buf t).e r c) := by
+  refine ⟨fun h => ?_, fun h => ?_⟩
+  · have hok := (seqStep_eq conj st st' _ h).1
+    obtain ⟨ht, hs, _, hkt, hks, _, _, _⟩ := rowPair_facts st .asg t i s j hok
+    have et : st.rd t = st.buf t := rd_own st hwf t ht hkt
+    have es : st.rd s = st.buf s := rd_own st hwf s hs hks
+    obtain ⟨_, _, f3⟩ := step_target conj st st' _ hwf h
+    simp only [SOp.target, opVal, et, es] at f3
+    rw [f3 r c hr hc]
+    rfl
+  · have hok := (seqStep_eq conj st st' _ h).1
+    obtain ⟨ht, hs, _, hkt, hks, _, _, _⟩ := rowPair_facts st .axpy t i s j hok
+    have et : st.rd t = st.buf t := rd_own st hwf t ht hkt
+    have es : st.rd s = st.buf s := rd_own st hwf s hs hks
+    obtain ⟨_, _, f3⟩ := step_target conj st st' _ hwf h
+    simp only [SOp.target, opVal, et, es] at f3
+    rw [f3 r c hr hc]
+    simp only [Mat.setRow]
+    by_cases hri : r = i
+    · rw [if_pos hri, if_pos hri, (vec_ops_spec ((st.buf t).row i) ((st.buf s).e j) k k c).2.2.2.2.2.1]
+      simp [Mat.row, hc]
+    · rw [if_neg hri, if_neg hri]
+
 /-- what a matrix object of a history is as a kernel operand: an owning matrix / scalar view is the representation of its
 own cell; a transposed view is the transpose of the *current* content of the cell of the object it was made from -/
 theorem seq_view_spec [Div R] (hwf : st.wf) (a : Nat) (ha : a < st.size) :
@@ -914,7 +944,8 @@ theorem seq_init_wf [Div R] (ds : List (Decl R)) (hds : declsOk ds) :
 end histories
 
 def exDecls : List (Decl Int) :=
-  [⟨.sc, ⟨1, 1, fun _ _ => 1⟩, 0⟩, ⟨.sc, ⟨1, 1, fun _ _ => 2⟩, 1⟩, ⟨.sv, ⟨1, 1, fun _ _ => 5⟩, 2⟩, ⟨.tv, zeroMat 0 0, 2⟩]
+  [⟨.sc, ⟨1, 1, fun _ _ => 1⟩, 0, false⟩, ⟨.sc, ⟨1, 1, fun _ _ => 2⟩, 1, false⟩, ⟨.sv, ⟨1, 1, fun _ _ => 5⟩, 2, false⟩,
+   ⟨.tv, zeroMat 0 0, 2, true⟩]
 
 -- non-vacuity: two scalar views, `v0 = v1; v0 *= 3; v0 += v1; v0 = transposedView(M).mv(v1)`: the scalars behind them afterwards
 example : (seqTrace (fun z : Int => z) (initState exDecls) [.asg 0 1, .scale 0 3, .add 0 1, .fill 2 7, .kern .mv 3 0 1 0]).map
